@@ -93,8 +93,12 @@ func contract_VarPool_getBaseName(p *VarPool, t types.Type) (result string) {
 //
 //kvc:axiom
 func axiomTypeNamesNonEmpty() bool {
-	return vs.ForallRef(func(o *types.TypeName) bool { return lowerCamelOf(o.Name()) != "" && !vs.StrPrefixOf("_", lowerCamelOf(o.Name())) }) &&
-		vs.ForallRef(func(b *types.Basic) bool { return lowerCamelOf(b.Name()) != "" && !vs.StrPrefixOf("_", lowerCamelOf(b.Name())) })
+	return vs.ForallRef(func(o *types.TypeName) bool {
+		return lowerCamelOf(o.Name()) != "" && !vs.StrPrefixOf("_", lowerCamelOf(o.Name()))
+	}) &&
+		vs.ForallRef(func(b *types.Basic) bool {
+			return lowerCamelOf(b.Name()) != "" && !vs.StrPrefixOf("_", lowerCamelOf(b.Name()))
+		})
 }
 
 func lowerCamelOf(s string) string { return kstrings.ToLowerCamel(s) }
@@ -1033,6 +1037,15 @@ func isEgWithContext(s ast.Stmt, ctxName string) bool {
 		isIdentNamed(vs.As[*ast.CallExpr](vs.As[*ast.AssignStmt](s).Rhs[0]).Args[0], ctxName)
 }
 
+// isEgDerivedFromSomeContext: `eg, ctx := errgroup.WithContext(<some identifier>)`.
+func isEgDerivedFromSomeContext(s ast.Stmt) bool {
+	return vs.TypeIs[*ast.AssignStmt](s) && vs.As[*ast.AssignStmt](s) != nil && vs.As[*ast.AssignStmt](s).Tok == token.DEFINE &&
+		len(vs.As[*ast.AssignStmt](s).Lhs) == 2 && isIdentNamed(vs.As[*ast.AssignStmt](s).Lhs[0], "eg") && isIdentNamed(vs.As[*ast.AssignStmt](s).Lhs[1], "ctx") &&
+		len(vs.As[*ast.AssignStmt](s).Rhs) == 1 && vs.TypeIs[*ast.CallExpr](vs.As[*ast.AssignStmt](s).Rhs[0]) &&
+		vs.As[*ast.CallExpr](vs.As[*ast.AssignStmt](s).Rhs[0]) != nil && len(vs.As[*ast.CallExpr](vs.As[*ast.AssignStmt](s).Rhs[0]).Args) == 1 &&
+		vs.TypeIs[*ast.Ident](vs.As[*ast.CallExpr](vs.As[*ast.AssignStmt](s).Rhs[0]).Args[0])
+}
+
 // isEgPlain: `eg := &errgroup.Group{}`.
 func isEgPlain(s ast.Stmt) bool {
 	return vs.TypeIs[*ast.AssignStmt](s) && vs.As[*ast.AssignStmt](s) != nil && vs.As[*ast.AssignStmt](s).Tok == token.DEFINE &&
@@ -1058,11 +1071,26 @@ func contract_createASTTypeExpr(pkg string, t types.Type, varPool *VarPool, impo
 	vs.Requires(poolInv(varPool) && imports != nil)
 	vs.Ensures("expr_or_error", (err == nil) == (result != nil))
 	vs.Ensures("pool_inv", poolInv(varPool))
-	vs.Ensures("imports_stay_nonnil", vs.Implies(vs.Old(importsNonNil(imports)), importsNonNil(imports)))
+	vs.Ensures("imports_stay_nonnil", allImportTablesStayNonNil())
+	vs.Ensures("imports_only_grow", importsOnlyGrow(imports))
 	vs.Ensures("names_stable", namesAreStable())
 	vs.Modifies(varPool.vars, imports)
 	vs.Allocates()
 	return
+}
+
+// importsOnlyGrow: entries of the import table are never removed or replaced, and an import once marked
+// used stays used.
+func importsOnlyGrow(imports map[string]*Import) bool {
+	return vs.ForallString(func(k string) bool {
+		return vs.Implies(vs.Old(vs.Has(imports, k)), vs.Has(imports, k) && imports[k] == vs.Old(imports[k]))
+	}) && vs.ForallOldPtr(func(imp *Import) bool { return vs.Implies(vs.Old(imp.IsUsed), imp.IsUsed) })
+}
+
+// allImportTablesStayNonNil: whatever import table (the package's or a provider's / value's own) had no nil
+// entry still has none - entries are only ever added, with non-nil values.
+func allImportTablesStayNonNil() bool {
+	return vs.ForallOldMap(func(m map[string]*Import) bool { return vs.Implies(vs.Old(importsNonNil(m)), importsNonNil(m)) })
 }
 
 // isChanMake: the value spec `<name> = make(chan struct{})`.
@@ -1083,7 +1111,7 @@ func isVarDecl(sp ast.Spec, name string) bool {
 func injectorVarsReady(injector *Injector) bool {
 	return injector != nil && vs.Forall(len(injector.Vars), func(i int) bool {
 		return vs.IsAllocated(injector.Vars[i]) && len(injector.Vars[i].types) >= 1 && importsNonNil(injector.Vars[i].ReferencedImports) &&
-			injector.Vars[i].name != "_" &&
+
 			(!injector.Vars[i].withChannel || injector.Vars[i].refCounter > 0)
 	})
 }
@@ -1092,7 +1120,7 @@ func injectorVarsReady(injector *Injector) bool {
 // completion channel created if some other thread waits for it.
 func everyVarDeclared(injector *Injector, n int, specs []ast.Spec) bool {
 	return vs.Forall(n, func(i int) bool {
-		return vs.Implies(injector.Vars[i].refCounter > 0,
+		return vs.Implies(injector.Vars[i].refCounter > 0 && injector.Vars[i].name != "_",
 			vs.Exists(len(specs), func(j int) bool { return injector.Vars[i].name != "" && isVarDecl(specs[j], injector.Vars[i].name) }) &&
 				vs.Implies(injector.Vars[i].withChannel,
 					vs.Exists(len(specs), func(j int) bool {
@@ -1108,6 +1136,8 @@ func contract_generateVariableSpecs(pkg string, injector *Injector, varPool *Var
 		vs.Forall(len(injector.Vars), func(i int) bool { return !vs.SameMap(injector.Vars[i].ReferencedImports, imports) }))
 	// C01/C03/C04: every variable assigned with `=` is declared, every channel that is waited on or closed is made
 	vs.Ensures("declares_every_value_and_channel", vs.Implies(err == nil, everyVarDeclared(injector, len(injector.Vars), result)))
+	vs.Ensures("imports_only_grow", importsOnlyGrow(imports))
+	vs.Ensures("imports_stay_nonnil", allImportTablesStayNonNil())
 	vs.Ensures("names_stable", namesAreStable())
 	vs.Ensures("pool_inv", poolInv(varPool))
 	vs.Modifies(vs.FieldOfAll(injector.Vars[0].name), vs.FieldOfAll(injector.Vars[0].channelName), vs.FieldOfAll(imports[""].IsUsed), varPool.vars, imports)
@@ -1119,8 +1149,9 @@ func contract_generateVariableSpecs(pkg string, injector *Injector, varPool *Var
 func inv_generateVariableSpecs(injector *Injector, varPool *VarPool, imports map[string]*Import, specs []ast.Spec, kvcIdx int) {
 	vs.Invariant("pool_inv", poolInv(varPool))
 	vs.Invariant("names_stable", namesAreStable())
-	vs.Invariant("no_blank_names", vs.Forall(len(injector.Vars), func(i int) bool { return injector.Vars[i].name != "_" }))
 	vs.Invariant("declared_so_far", everyVarDeclared(injector, kvcIdx, specs))
+	vs.Invariant("imports_only_grow", importsOnlyGrow(imports))
+	vs.Invariant("imports_stay_nonnil", allImportTablesStayNonNil())
 }
 
 // Proof hints: the spec just appended is the witness for "declared".
@@ -1137,4 +1168,132 @@ func hintChanMade(specs []ast.Spec, param *InjectorParam) {
 
 //kvc:loop generateVariableSpecs "for _, imp := range param.ReferencedImports"
 func inv_generateVariableSpecs_imports() {
+	vs.Invariant("used_stays_used", vs.ForallOldPtr(func(imp *Import) bool { return vs.Implies(vs.Old(imp.IsUsed), imp.IsUsed) }))
+}
+
+func injectorArgsReady(injector *Injector) bool {
+	return injectorArgsNonNil(injector) && vs.Forall(len(injector.Args), func(i int) bool {
+		return vs.IsAllocated(injector.Args[i]) && vs.IsAllocated(injector.Args[i].Param) && len(injector.Args[i].Param.types) >= 1
+	})
+}
+
+// isVarBlock: `var ( specs... )`.
+func isVarBlock(s ast.Stmt) bool {
+	return vs.TypeIs[*ast.DeclStmt](s) && vs.As[*ast.DeclStmt](s) != nil && vs.TypeIs[*ast.GenDecl](vs.As[*ast.DeclStmt](s).Decl) &&
+		vs.As[*ast.GenDecl](vs.As[*ast.DeclStmt](s).Decl) != nil && vs.As[*ast.GenDecl](vs.As[*ast.DeclStmt](s).Decl).Tok == token.VAR
+}
+
+func varBlockSpecs(s ast.Stmt) []ast.Spec {
+	return vs.As[*ast.GenDecl](vs.As[*ast.DeclStmt](s).Decl).Specs
+}
+
+//kvc:contract generateAsyncInitialization
+func contract_generateAsyncInitialization(pkg string, injector *Injector, varPool *VarPool, imports map[string]*Import) (result []ast.Stmt, err error) {
+	vs.Requires(injectorVarsReady(injector) && injectorArgsReady(injector) && poolInv(varPool) && imports != nil && importsNonNil(imports) &&
+		vs.Forall(len(injector.Vars), func(i int) bool { return !vs.SameMap(injector.Vars[i].ReferencedImports, imports) }))
+	// C01/C03/C04: the goroutines' shared variables and completion channels are declared first, then the group
+	vs.Ensures("declarations_then_group", vs.Implies(err == nil, len(result) == 2 && isVarBlock(result[0]) &&
+		everyVarDeclared(injector, len(injector.Vars), varBlockSpecs(result[0])) &&
+		(isEgPlain(result[1]) || isEgDerivedFromSomeContext(result[1]))))
+	// C07: the group is derived from the caller's context whenever the injector has one
+	vs.Ensures("group_observes_callers_context", vs.Implies(err == nil && injectorHasCtx(injector), !isEgPlain(result[1])))
+	// C04: the errgroup import is emitted
+	vs.Ensures("errgroup_import_marked_used", vs.Has(imports, errgroupPkgPath) && imports[errgroupPkgPath] != nil && imports[errgroupPkgPath].IsUsed)
+	vs.Ensures("imports_stay_nonnil", allImportTablesStayNonNil())
+	vs.Ensures("names_stable", namesAreStable())
+	vs.Ensures("pool_inv", poolInv(varPool))
+	vs.Modifies(vs.FieldOfAll(injector.Vars[0].name), vs.FieldOfAll(injector.Vars[0].channelName), vs.FieldOfAll(imports[""].IsUsed), varPool.vars, imports)
+	vs.Allocates()
+	return
+}
+
+//kvc:loop generateAsyncInitialization "for _, arg := range injector.Args"
+func inv_generateAsyncInitialization(injector *Injector, varPool *VarPool, ctxParamName string, kvcIdx int) {
+	vs.Invariant("no_ctx_so_far", ctxParamName == "" && vs.Forall(kvcIdx, func(i int) bool { return !isContextType(injector.Args[i].Type) }))
+	vs.Invariant("pool_inv", poolInv(varPool))
+	vs.Invariant("names_stable", namesAreStable())
+}
+
+//kvc:split generateAsyncInitialization
+
+// topStmtReady: a statement of Injector.Stmts - a thread statement of the main flow or a goroutine.
+func topStmtReady(s InjectorStmt) bool {
+	return threadStmtReady(s) ||
+		(vs.TypeIs[*InjectorChainStmt](s) && vs.IsAllocated(vs.As[*InjectorChainStmt](s)) &&
+			vs.Forall(len(vs.As[*InjectorChainStmt](s).Statements), func(i int) bool { return threadStmtReady(vs.As[*InjectorChainStmt](s).Statements[i]) }))
+}
+
+// fallibleOnlyIfErrorResult (C06): a provider that can fail is only scheduled in an injector that can return an error.
+func fallibleOnlyIfErrorResult(injector *Injector) bool {
+	return vs.Forall(len(injector.Stmts), func(i int) bool {
+		return vs.Implies(vs.TypeIs[*InjectorProviderCallStmt](injector.Stmts[i]) && vs.As[*InjectorProviderCallStmt](injector.Stmts[i]).Provider.IsReturnError, injector.IsReturnError)
+	})
+}
+
+func isJoin(s ast.Stmt) bool { return isJoinReportingError(s) || isJoinDroppingError(s) }
+
+func returnParamReady(injector *Injector) bool {
+	return injector.Return == nil || injector.Return.Param == nil ||
+		(vs.IsAllocated(injector.Return) && vs.IsAllocated(injector.Return.Param) && len(injector.Return.Param.types) >= 1 && injector.Return.Param.refCounter > 0)
+}
+
+//kvc:split generateStmts
+//kvc:contract generateStmts
+func contract_generateStmts(varPool *VarPool, pkg string, injector *Injector, imports map[string]*Import) (result []ast.Stmt, err error) {
+	vs.Requires(injectorVarsReady(injector) && injectorArgsReady(injector) && returnParamReady(injector) && poolInv(varPool) && imports != nil && importsNonNil(imports) &&
+		vs.Forall(len(injector.Vars), func(i int) bool { return !vs.SameMap(injector.Vars[i].ReferencedImports, imports) }) &&
+		vs.Forall(len(injector.Stmts), func(i int) bool { return topStmtReady(injector.Stmts[i]) }) && fallibleOnlyIfErrorResult(injector))
+	// C01/C03/C04: with goroutines, the shared variables / channels and the group come first
+	// (that the var block declares every shared variable and channel is carried by the ghost assertion
+	// prologue_survives_join, checked after all steps and the join have been emitted)
+	vs.Ensures("prologue_declares_shared_state", vs.Implies(err == nil && injectorHasChains(injector), len(result) >= 2 && isVarBlock(result[0]) &&
+		(isEgPlain(result[1]) || isEgDerivedFromSomeContext(result[1]))))
+	// C03/C08: the normal return is preceded by the join of all goroutines
+	vs.Ensures("join_before_normal_return", vs.Implies(err == nil && injectorHasChains(injector) && (injector.IsReturnError || (injector.Return != nil && injector.Return.Param != nil)),
+		len(result) >= 2 && isJoin(result[len(result)-2]) && vs.Implies(injector.IsReturnError, isJoinReportingError(result[len(result)-2]))))
+	// C02/C10: the function returns the variable of the requested value (and nil as the error)
+	vs.Ensures("returns_requested_value", vs.Implies(err == nil && injector.Return != nil && injector.Return.Param != nil,
+		len(result) >= 1 && vs.TypeIs[*ast.ReturnStmt](result[len(result)-1]) &&
+			len(vs.As[*ast.ReturnStmt](result[len(result)-1]).Results) == 1+b2i(injector.IsReturnError) &&
+			namesVarOf(vs.As[*ast.ReturnStmt](result[len(result)-1]).Results[0], injector.Return.Param) &&
+			vs.Implies(injector.IsReturnError, isIdentNamed(vs.As[*ast.ReturnStmt](result[len(result)-1]).Results[1], "nil"))))
+	vs.Ensures("pool_inv", poolInv(varPool))
+	vs.ModifiesAll()
+	vs.Allocates()
+	return
+}
+
+//kvc:loop generateStmts "for _, stmt := range injector.Stmts"
+func inv_generateStmts(varPool *VarPool, injector *Injector, imports map[string]*Import, stmts []ast.Stmt, hasChains bool) {
+	vs.Invariant("pool_inv", poolInv(varPool))
+	vs.Invariant("names_stable", namesAreStable())
+	vs.Invariant("still_ready", injectorArgsReady(injector) && returnParamReady(injector) &&
+		vs.Forall(len(injector.Stmts), func(i int) bool { return topStmtReady(injector.Stmts[i]) }) && fallibleOnlyIfErrorResult(injector))
+	vs.Invariant("prologue_kept", vs.Implies(hasChains, len(stmts) >= 2 && isVarBlock(stmts[0]) &&
+		everyVarDeclared(injector, len(injector.Vars), varBlockSpecs(stmts[0])) &&
+		(isEgPlain(stmts[1]) || isEgDerivedFromSomeContext(stmts[1]))))
+}
+
+//kvc:ghost generateStmts after "returnExprs := make([]ast.Expr, 0, maxInjectorReturnValues)"
+func hintPrologueAfterJoin(injector *Injector, stmts []ast.Stmt, hasChains bool) {
+	vs.Assert("prologue_survives_join", vs.Implies(hasChains, len(stmts) >= 2 && everyVarDeclared(injector, len(injector.Vars), varBlockSpecs(stmts[0]))))
+}
+
+// The error continuation of the injector's own flow, checked where it is defined.
+//
+//kvc:ghost generateStmts after "switch { case !injector.IsReturnError"
+func ghostMainContinuation(returnErrStmts func(ast.Expr) []ast.Stmt, hasChains bool, injector *Injector) {
+	gMainCont = returnErrStmts
+	vs.Assert("error_injector_has_continuation", injector.IsReturnError == (returnErrStmts != nil))
+	if returnErrStmts != nil {
+		e := ast.Expr(ast.NewIdent("anyErrorExpression"))
+		r := returnErrStmts(e)
+		// C06: the error handed to the continuation is what the injector returns
+		vs.Assert("main_error_return_carries_the_error", len(r) >= 1 && vs.TypeIs[*ast.ReturnStmt](r[len(r)-1]) &&
+			len(vs.As[*ast.ReturnStmt](r[len(r)-1]).Results) >= 1 &&
+			vs.As[*ast.ReturnStmt](r[len(r)-1]).Results[len(vs.As[*ast.ReturnStmt](r[len(r)-1]).Results)-1] == e)
+		// C08: leaving the injector's own flow early must not abandon running goroutines: they have to be joined (or the
+		// derived context cancelled) first. KNOWN FINDING on the pinned tree: the continuation returns at once.
+		vs.Assert("main_error_return_joins_goroutines", vs.Implies(hasChains, vs.Exists(len(r), func(i int) bool { return isJoin(r[i]) })))
+	}
 }
